@@ -98,3 +98,9 @@ package raftpb
 //@ func (u *Update) SizeUpperLimit [C13]
 //@ ensures len(u.EntriesToSave) == 0 && u.Snapshot.Index == 0 ==> result == 22 + 56 + 48
 //@ ensures len(u.EntriesToSave) == 0 && u.Snapshot.Index != 0 ==> result >= 22 + 56
+
+//@ func MustMarshal [C10 C13]
+//@ trusted wraps the generated Marshal of a message (allocation only; panics on error)
+//@ func MustMarshalTo [C10 C13]
+//@ trusted wraps the generated MarshalTo of a message; panics on error
+//@ modifies elems(result)
